@@ -13,6 +13,7 @@ import Pandora.Model.C13Jsonline
 import Pandora.Model.C13Grpc
 import Pandora.Model.C13Cfg
 import Pandora.Model.C13Csv
+import Pandora.Model.C13Run
 
 set_option linter.unusedSimpArgs false
 
@@ -414,5 +415,58 @@ theorem csvRecord_bridge (i recLen : Int) (hi : 0 ≤ i) :
     have : 0 ≤ i ∧ i < recLen := by omega
     simp [this]
   · omega
+
+/-! ### round 6: the bounds on what is allocated from an announced repeat count; the end of `Run` -/
+
+theorem maxScenarioRequests_bridge : Gen.C13Src.maxScenarioRequests = maxScenarioRequests := rfl
+theorem maxSpreadSize_bridge : Gen.C13Src.maxSpreadSize = maxSpreadSize := rfl
+theorem maxRandStringLength_bridge : Gen.C13Src.maxRandStringLength = maxRandStringLength := rfl
+
+/-- the tests in front of the append loop of `convertScenarioToAmmo` (http and grpc) refuse exactly the counts the model's
+`expandGo` refuses: more than what is left of `MaxScenarioRequests` (written in any equivalent way) -/
+theorem repeatRefused_bridge (cnt have_ : Int) :
+    (Gen.C13Src.httpRepeatRefused cnt have_ ↔ cnt > maxScenarioRequests - have_) ∧
+    (Gen.C13Src.grpcRepeatRefused cnt have_ ↔ cnt > maxScenarioRequests - have_) := by
+  unfold Gen.C13Src.httpRepeatRefused Gen.C13Src.grpcRepeatRefused maxScenarioRequests
+  constructor <;> constructor <;> intro h <;> omega
+
+/-- `CheckSpread` is the model's `checkSpread`, and both `decodeAmmo` call it between `SpreadNames` and the first `make` -/
+theorem checkSpread_bridge (counts : List Int) (total : Int) :
+    Gen.C13Src.httpDecodeAmmoChecksSpread = true ∧ Gen.C13Src.grpcDecodeAmmoChecksSpread = true ∧
+    (checkSpread counts total = true ↔ (Gen.C13Src.checkSpreadTotal total ∨ ∃ c ∈ counts, Gen.C13Src.checkSpreadCount c)) := by
+  refine ⟨rfl, rfl, ?_⟩
+  unfold checkSpread Gen.C13Src.checkSpreadTotal Gen.C13Src.checkSpreadCount maxSpreadSize
+  simp only [Bool.or_eq_true, decide_eq_true_eq, List.any_eq_true]
+  -- (closed by `simp only` when the source writes the tests as the model does; the rest is for equivalent rewritings)
+  try
+    constructor
+    · rintro (h | ⟨c, hc, h⟩)
+      · left; omega
+      · right; exact ⟨c, hc, by omega⟩
+    · rintro (h | ⟨c, hc, h⟩)
+      · left; omega
+      · right; exact ⟨c, hc, by omega⟩
+
+/-- `randString` after its `ParseInt`: the regenerated function is the model's (error classes erased) -/
+theorem randStringLen_bridge (n : Int) :
+    Gen.C13Src.randStringLen n = eraseErr ((randStringLen true n).bind fun k => .ok (k : Int)) := by
+  unfold Gen.C13Src.randStringLen randStringLen makeRunesC maxRandStringLength maxAlloc memCap
+  by_cases h0 : n = 0
+  · subst h0; simp [eraseErr, Res.bind]
+  · by_cases hn : n < 0
+    · simp [h0, hn, eraseErr, Res.bind]
+    · by_cases hb : n > 16777216
+      · simp [h0, hn, hb, eraseErr, Res.bind]
+      · have a : ¬ n * 4 > 281474976710656 := by omega
+        have b : ¬ n * 4 > 4294967296 := by omega
+        have c : ((n.toNat : Nat) : Int) = n := by omega
+        simp [h0, hn, hb, a, b, c, eraseErr, Res.bind]
+
+/-- in the `Run` of each of the four providers the defer that closes the sink stands in front of every statement that may
+return (a `return` moved above it - an early error path without the close - makes this false) -/
+theorem runClosesSink_bridge :
+    closesOnEveryReturn Gen.C13Src.grpcRunStmts = true ∧ closesOnEveryReturn Gen.C13Src.httpRunStmts = true ∧
+    closesOnEveryReturn Gen.C13Src.decodeRunStmts = true ∧ closesOnEveryReturn Gen.C13Src.scenarioRunStmts = true := by
+  decide
 
 end Pandora.Bridge.C13
